@@ -16,6 +16,7 @@ import numpy
 from common import Check, Driver, Infra, VERIF, sarpy_guard
 import segtree
 import c01complete
+import segmodel
 
 sys.path.insert(0, os.path.join(VERIF, 'translate'))
 
@@ -614,7 +615,9 @@ def run(tier):
     gen_info = gen_slices.generate(os.path.join(VERIF, 'lean', 'SarpyModel', 'Gen', 'Slices.lean'))
     if gen_info['unsupported']:
         gen_info['note'] = 'translator could not express: ' + json.dumps(gen_info['unsupported'])
-    broken = chk.prove(['SarpyModel.Props.C01', 'SarpyModel.Props.C01Nd', 'SarpyModel.Props.C01Complete', 'SarpyModel.Drivers'], 'SarpyModel.Props.C01Complete', 'Sarpy.Props.C01', REQUIRED, gen_info)
+    broken = chk.prove(['SarpyModel.Props.C01', 'SarpyModel.Props.C01Nd', 'SarpyModel.Props.C01Complete', segmodel.SEG_MODULE, 'SarpyModel.Drivers'], 'SarpyModel.Props.C01Complete', 'Sarpy.Props.C01', REQUIRED, gen_info)
+    if not broken:
+        segmodel.obligations_reads(chk, broken)      # Props/C01Seg.lean: segment trees as index maps, read = select(full)
 
     # ---- correspondence: kernels three-way (python / Gen / Spec) and numpy-spec validation
     disagreements = []
@@ -630,6 +633,7 @@ def run(tier):
         ndq = [drv.ask(nd_line(c)) for c in ndc]
         ccs = c01complete.supported_oracle_cases(rng, tier)
         ccq = c01complete.enqueue(drv, ccs)
+        seg_plan = segmodel.plan_reads(drv, rng, tier)
         ans = drv.run()
     except Infra as e:
         drv_ok = False
@@ -723,6 +727,11 @@ def run(tier):
                 seen.add(feature_key(spec, s, shape))
             check_tree(spec, subs, tmpdir, fails, stats)
         check_reader(rng, fails, stats, tmpdir)
+        if drv_ok:
+            seg_dis, seg_stats = segmodel.check_reads(seg_plan, ans, tmpdir)
+            disagreements += seg_dis
+            evaluations += seg_stats['reads'] + seg_stats['full_reads']
+            chk.coverage['segment_model'] = seg_stats
         if tier == 'thorough':
             exhaustive_small(fails, stats, tmpdir)
     finally:
@@ -749,7 +758,11 @@ def run(tier):
         'translator py2lean (fidelity checked by the python-vs-Gen differential in this run)',
         'float division idioms int(floor(a/b)), int(ceil(a/b)), int(a/b) read as exact integer division (|operands| < 2^53)',
         'Spec.npIndices is the specification of numpy basic slicing (validated against numpy by enumeration in this run)',
-        'N-d composition of the per-axis kernels inside DataSegment classes is not yet a theorem: tied by the numpy oracle over random segment trees',
+        'N-d composition inside the DataSegment classes: theorem read_refines (Props/C01Seg.lean) is about Spec.Segment, a hand-written '
+        'mirror of data_segment.py / format_function.py (no translator); it is tied to the code by the provenance correspondence of this run '
+        '(array / memmap / file-read leaves, reverse + transpose, ReorientationSegment, subsets with and without squeezed axes, band and '
+        'block aggregates with holes, ComplexFormatFunction IQ/QI with collapsed band axis); complex with the band dimension kept, MP/PM and '
+        'LUT format functions are tied by the numpy oracle only',
         'JPEG/JPEG2000/HDF5 segments outside the model',
     ]
 
